@@ -83,32 +83,14 @@ theorem word_typedefs_agree_cfg32 : word_sizes_c_cfg32 = word_sizes_cpp_cfg32 :=
 caller-supplied byte buffers (plus lqibe's `SymmetricKeyHashBuffer`).  Names are the demangled type
 names with `embedded_pairing::` removed.
 
-C17 needs "every overlay has alignment 1".  On the current tree this is FALSE:
+C17 needs "every overlay has alignment 1" (history: false before the repair of FreeSlotMarshalled):
 `wkdibe::FreeSlotMarshalled<c>` contains `uint32_t idx`, so it has alignment 4 (and trailing/inner
 layout that assumes a 4-aligned buffer).  What holds is stated precisely instead. -/
 
-/-- the overlay types whose alignment is not 1 on the current tree -/
-def overlayOffenders : List String :=
-  ["wkdibe::FreeSlotMarshalled<false>", "wkdibe::FreeSlotMarshalled<true>"]
-
-/-- All overlays except the named offenders have alignment 1. -/
-theorem overlay_alignment_except_offenders_cfg64 :
-    ∀ r ∈ overlays_cfg64, r.name ∉ overlayOffenders → r.align = 1 := by decide
-theorem overlay_alignment_except_offenders_cfg32 :
-    ∀ r ∈ overlays_cfg32, r.name ∉ overlayOffenders → r.align = 1 := by decide
-
-/-- The offenders are really there, with alignment 4 … -/
-theorem overlay_offender_cfg64 :
-    ∃ r ∈ overlays_cfg64, r.name = "wkdibe::FreeSlotMarshalled<true>" ∧ r.align = 4 := by decide
-theorem overlay_offender_uncompressed_cfg64 :
-    ∃ r ∈ overlays_cfg64, r.name = "wkdibe::FreeSlotMarshalled<false>" ∧ r.align = 4 := by decide
-theorem overlay_offenders_all_align4_cfg64 :
-    ∀ r ∈ overlays_cfg64, r.name ∈ overlayOffenders → r.align = 4 := by decide
-theorem overlay_offenders_all_align4_cfg32 :
-    ∀ r ∈ overlays_cfg32, r.name ∈ overlayOffenders → r.align = 4 := by decide
-
-/-- … hence the unrestricted statement C17 would like is false on the current tree. -/
-theorem overlay_alignment_cfg64_false : ¬ ∀ r ∈ overlays_cfg64, r.align = 1 := by decide
+/-- Every struct overlaid on a caller-supplied byte buffer has alignment 1 (used by C17; this was false
+before the repair of `FreeSlotMarshalled`, whose `uint32_t idx` gave it alignment 4). -/
+theorem overlay_alignment_cfg64 : ∀ r ∈ overlays_cfg64, r.align = 1 := by decide
+theorem overlay_alignment_cfg32 : ∀ r ∈ overlays_cfg32, r.align = 1 := by decide
 
 /-- The overlay layouts do not depend on the word size. -/
 theorem overlays_config_independent : overlays_cfg64 = overlays_cfg32 := by decide
